@@ -8,6 +8,7 @@ replayed into the real library.
 code -> spec: seeded random trees to depth 5 over a wider atom alphabet and random targets
 are run through the real library; the recorded rows are validated by TLC (Trace_C10.tla).
 """
+import copy
 import json
 import random
 
@@ -34,6 +35,15 @@ def run_seq(mode, spec, trees):
         ob = dict(failed) if failed else B.observe(lambda: glom.glom(target, s))
         ob['calls'] = list(ctx.calls)
         ob['same'] = bool(ob['ok'] and ob['res'] is target)
+        if ob['ok'] and len(trees) > 1:
+            # a caller mutates the containers of the result before the spec object is used again
+            try:
+                kept = copy.deepcopy(ob['res'])
+            except Exception:
+                kept = None
+            if kept is not None and not ob['same']:
+                B.poison(ob['res'], target)
+                ob['res'] = kept
         ob['unchanged'] = B.snapshot(target) == before
         obs.append(ob)
     return obs
@@ -229,7 +239,9 @@ MUTANTS = [('or_last', ('Result', 'ShortCircuit'), dict(Depth=1, Wide='FALSE')),
            ('check_returns_subtarget', ('Result', 'Passthrough'), dict(Depth=1, Wide='FALSE')),             # Check(spec, ..)
            ('unorderable_is_rejection', ('Unorderable',), dict(Depth=1, Wide='FALSE')),                     # unorderable operands
            ('required_constant_allowed', ('CtorLaw',), dict(Depth=1, Wide='FALSE')),
-           ('or_remembers_branch', ('HistoryFree',), dict(Depth=1, Wide='FALSE'))]                          # specs carry no memory                        # Optional / Required construction
+           ('or_remembers_branch', ('HistoryFree',), dict(Depth=1, Wide='FALSE')),                          # specs carry no memory
+           ('default_aliased', ('HistoryFree',), dict(Depth=1, Wide='FALSE')),            # defaults are built afresh
+           ('default_not_evaluated', ('Result', 'Decides'), dict(Depth=1, Wide='FALSE'))]  # defaults are argument values (T resolved)                        # Optional / Required construction
 
 
 def main(tier, seed):
